@@ -24,12 +24,13 @@ LEVEL = "exploration"
 RULE = ("scenario = 1..3 concurrent clients (real send_initialize with a generated supported list, or a raw client) x requested version strata "
         "(each supported; supported +-1 day/month/year; any well-formed date 1925..2125; ill-formed strings; non-strings; absent) x network "
         "latencies; non-trivial = at least one requested version outside the server's supported list, or >= 2 handshakes interleaved")
-PROBES = ["client_list_built_from_accessor_and_edited", "retry_after_client_timeout", "response_queued_while_other_handshake_handled", "requested_unsupported_wellformed", "requested_illformed", "requested_nonstring", "requested_absent", "handshakes_interleaved",
+PROBES = ["handshake_through_tracking_wrapper", "client_list_built_from_accessor_and_edited", "retry_after_client_timeout", "response_queued_while_other_handshake_handled", "requested_unsupported_wellformed", "requested_illformed", "requested_nonstring", "requested_absent", "handshakes_interleaved",
           "real_client_mismatch", "real_client_counter_proposal", "supported_echoed"]
 TIERS = {"quick": {"runs": 20000, "wall": 45.0}, "thorough": {"runs": 1500000, "wall": 560.0}}
 ASSUMPTIONS = ["messages cross the in-memory network serialised (model_dump_json(exclude_none)) and re-parsed (parse_message), as over a real transport"]
 SHRINK_LISTS = ["clients"]
 
+IMPOSSIBLE_DATES = ["2025-02-30", "2025-13-01", "2025-06-00", "0000-01-01", "2023-02-29", "9999-99-99", "2025-00-10", "2025-06-31"]
 ILL = ["2025-6-18", "2025-06-18\n", " 2025-06-18", "", "latest", "v2", "2025/06/18", "20250618", "2025-06-18T00:00", "２０２５-06-18", "2025-06-1８"]
 NONSTR = [20250618, None, ["2025-06-18"], {"v": "2025-06-18"}, True, 1.5]
 
@@ -60,9 +61,13 @@ def generate(rng: random.Random, tier: str) -> dict:
         c = {"kind": kind, "start": rng.choice([0, 0, 1, 5, 30]), "net": rng.choice([0, 1, 3, 20]), "net_back": rng.choice([0, 1, 3, 20]),
              "info": rng.choice([None, {"name": f"cli{i}", "version": "1"}])}
         if kind == "real":
-            universe = from_supported + ["2026-01-01", "2025-06-17", "1999-12-31", "v1"]
+            universe = from_supported + ["2026-01-01", "2025-06-17", "1999-12-31", "v1", "2025-02-30"]
             c["supported"] = rng.sample(universe, rng.choice([1, 2, 3]))
             c["preferred"] = rng.choice([None, None, c["supported"][-1]])
+            if rng.random() < 0.15 and "retry" not in c:
+                # the handshake goes through the tracking wrapper (what stdio_client_with_initialize uses); the first initialize request
+                # of this client never reaches the server (slow boot / lost on the way)
+                c["tracking"] = {"first_request_lost": rng.random() < 0.7, "timeout": rng.choice([0.25, 0.5])}
             if rng.random() < 0.15:
                 # the client builds its list from the library's accessor and edits what it was handed
                 c["from_accessor"] = {"insert": rng.choice(["2026-01-01", "2025-06-19", "1999-12-31"]), "at": rng.choice([0, 0, 1])}
@@ -77,6 +82,8 @@ def generate(rng: random.Random, tier: str) -> dict:
                 c["version"] = rng.choice(from_supported)
             elif r < 0.4:
                 c["version"] = _neighbour(rng.choice(from_supported), rng)
+            elif r < 0.5:
+                c["version"] = rng.choice(IMPOSSIBLE_DATES)   # well-formed dddd-dd-dd that is no calendar date
             elif r < 0.6:
                 c["version"] = f"{rng.randrange(1925, 2126):04d}-{rng.randrange(1, 13):02d}-{rng.randrange(1, 29):02d}"
             elif r < 0.75:
@@ -104,6 +111,8 @@ def simplify(scn):
             cc = copy.deepcopy(scn); del cc["clients"][i]["retry"]; yield cc
         if c.get("from_accessor"):
             cc = copy.deepcopy(scn); del cc["clients"][i]["from_accessor"]; yield cc
+        if c.get("tracking"):
+            cc = copy.deepcopy(scn); del cc["clients"][i]["tracking"]; yield cc
     if scn["server_delay"]:
         cc = copy.deepcopy(scn); cc["server_delay"] = 0; yield cc
     if scn.get("flush_delay"):
@@ -137,7 +146,13 @@ def execute(scn: dict) -> dict:
 
         async def server_loop(i, c, c2s_recv, s2c_send):
             session = None
+            lost = [bool((c.get("tracking") or {}).get("first_request_lost"))]
             async for raw in c2s_recv:
+                if lost[0]:
+                    lost[0] = False
+                    sim.rec("net", "first-request-lost", None)
+                    sim.fault("first_initialize_request_lost")
+                    continue
                 if c["net"]:
                     await anyio.sleep(ticks(c["net"]))
                 try:
@@ -200,7 +215,19 @@ def execute(scn: dict) -> dict:
                         pass
                     sup, pref = list(c["retry"]["supported"]), c["retry"]["preferred"]
                 try:
-                    res = await ini.send_initialize(s2c_recv, c2s_send, timeout=5.0, supported_versions=sup, preferred_version=pref)
+                    if c.get("tracking"):
+                        class _Tracked:
+                            version = None
+
+                            def set_protocol_version(self, v):
+                                self.version = v
+                        tracked = _Tracked()
+                        res = await ini.send_initialize_with_client_tracking(s2c_recv, c2s_send, client=tracked, timeout=c["tracking"]["timeout"],
+                                                                             supported_versions=sup, preferred_version=pref)
+                        st.setdefault("tracked", {})[i] = tracked.version
+                        sim.probe("handshake_through_tracking_wrapper")
+                    else:
+                        res = await ini.send_initialize(s2c_recv, c2s_send, timeout=5.0, supported_versions=sup, preferred_version=pref)
                     st["outcomes"][i] = ("ok", str(res.protocolVersion))
                 except BaseException as e:  # noqa
                     st["outcomes"][i] = ("raise", e)
@@ -334,6 +361,8 @@ def execute(scn: dict) -> dict:
                 probe("real_client_counter_proposal")
         elif isinstance(o[1], VersionMismatchError):
             probe("real_client_mismatch")
+        elif isinstance(o[1], TimeoutError) and (c.get("tracking") or {}).get("first_request_lost"):
+            probe("request_lost_handshake_timed_out")  # the request never arrived: neither agreed nor mismatched, a plain timeout
         else:
             V("end-to-end", "other-error:" + type(o[1]).__name__, f"client {i} ended with {o[1]!r:.160}")
     out["nontrivial"] = nontrivial
